@@ -345,6 +345,10 @@ def call_builtin(eng, p, args, kwargs, fr, node):
         raise Unsupported(name)
     if name == "os.path.join":
         return SV("V", T.pjoin(*[eng.as_V(a) for a in args]), meta={"path": True})
+    if name == "os.path.dirname" and len(args) == 1:
+        return mk_V(T.pdir(eng.as_V(args[0])))
+    if name == "os.path.basename" and len(args) == 1:
+        return mk_V(T.pbase(eng.as_V(args[0])))
     if name == "os.path.split" and len(args) == 1:
         pv = eng.as_V(args[0])
         return mk_tuple([mk_V(T.pdir(pv)), mk_V(T.pbase(pv))])
